@@ -394,6 +394,10 @@ def run(ctx):
             except Exception as e:
                 ctx.disagree("mode.check-trace", {"ini": meta.get("ini"), "job": tr.get("job")}, "evaluated", repr(e))
         if not tr["legs"]:
+            if tr["end"] == "inadmissible-initial-overlap":
+                # hard-core family: every re-seeded random initial state had overlapping cores (outside every property's quantifier)
+                ctx.count("trace-skipped:inadmissible-initial-overlap")
+                continue
             ctx.fail("C12:run-does-not-start", {"ini": meta.get("ini"), "end": tr["end"], "job": tr.get("job"),
                                                 "exception": (tr.get("exception") or "")[-1500:]},
                      "the run could not be built or raised before the first commit")
